@@ -75,6 +75,14 @@ def c01_context_layouts(tier, access="r"):
                 fa = Field("x", ty_for_width(a_[1], "u1"), [a_], None, access)
                 fb = Field("y", ty_for_width(b_[1], "u1"), [b_], None, access)
                 Ls.append(Layout(W, [fa, fb] if order == 0 else [fb, fa], tag=f"fields at {a_} and {b_} (same digit string when lowest bit and width are concatenated) on u{W}"))
+    # two (or three) fields that share their lowest bit, the wider one declared first and last
+    for (W, lo, ws) in ((32, 0, (16, 8)), (64, 8, (32, 8, 16)), (128, 0, (64, 32)), (128, 64, (64, 8)), (24, 4, (16, 8)), (100, 1, (64, 16, 3))):
+        for order in (0, 1):
+            seq = list(ws) if order == 0 else list(reversed(ws))
+            fs = []
+            for k, w_ in enumerate(seq):
+                fs.append(Field(f"v{k}", (T_uint(w_) if k % 2 == 0 else T_int(w_)) if is_native(w_) else T_uint(w_), [(lo, w_)], None, access))
+            Ls.append(Layout(W, fs, tag=f"fields of widths {seq} all starting at bit {lo} of u{W}"))
     # bit positions written with a leading zero are still decimal
     for W in (16, 32, 128, 24):
         Ls.append(Layout(W, [Field("a", T_uint(2), [(10, 2)], None, access, zero_pad=True), Field("b", T_bool(), [(W - 1 if W - 1 < 78 else 77, 1)], None, access, zero_pad=True),
